@@ -242,6 +242,44 @@ func init() {
 			alias := arrayAliasCases()
 			secs = append(secs, core.Section{Name: "array-results-across-blocks", Exhaustive: true, N: len(alias),
 				Run: func(c *core.Ctx, i int) { judgeScope(c, alias[i].prog, alias[i].data, "array-alias") }})
+			// blocks inside one another to depth 15..300: each level assigns a name of its own and shadows nothing; the
+			// innermost block sees them all, after each block its name is gone and the outer ones are as they were
+			deepSizes := []int{15, 16, 17, 63, 64, 65, 127, 128, 129, 255, 256, 300}
+			secs = append(secs, core.Section{Name: "deep-blocks", Exhaustive: true, N: len(deepSizes) * 4,
+				Run: func(c *core.Ctx, i int) {
+					n := deepSizes[i%len(deepSizes)]
+					variant := i / len(deepSizes)
+					lit := func(v int64) model.Expr { return model.Lit{V: model.Int(v)} }
+					name := func(l int) string { return fmt.Sprintf("v%d", l) }
+					// innermost: read three names of enclosing levels, the data name and the name of the template level
+					inner := []model.Stmt{model.Text{S: "<"}, model.Print{E: model.Var{Name: name(0)}}, model.Text{S: ","}, model.Print{E: model.Var{Name: name(n / 2)}}, model.Text{S: ","},
+						model.Print{E: model.Var{Name: name(n - 1)}}, model.Text{S: ","}, model.Print{E: model.Var{Name: "d"}}, model.Text{S: ","}, model.Print{E: model.Var{Name: "top"}}, model.Text{S: ">"}}
+					if variant == 3 {
+						// the innermost block re-assigns a name of the outermost level with another type: an error
+						inner = append(inner, model.Assign{Name: name(0), E: model.StrLit{S: "text"}})
+					}
+					body := inner
+					for l := n - 1; l >= 0; l-- {
+						blk := append([]model.Stmt{model.Assign{Name: name(l), E: lit(int64(l))}, model.Assign{Name: "top", E: lit(int64(100 + l))}}, body...)
+						// after the nested block: its name is gone (read at one level only, it is an error), "top" is as this level set it
+						after := []model.Stmt{model.Text{S: "|"}, model.Print{E: model.Var{Name: "top"}}}
+						if variant == 2 && l == n/2 {
+							after = append(after, model.Print{E: model.Var{Name: name(l + 1)}})
+						}
+						blk = append(blk, after...)
+						switch (l + variant) % 3 {
+						case 0:
+							body = []model.Stmt{model.If{Conds: []model.Expr{model.Lit{V: model.Bool(true)}}, Bodies: [][]model.Stmt{blk}}}
+						case 1:
+							body = []model.Stmt{model.Each{Var: fmt.Sprintf("e%d", l), Arr: intArr(1), Body: blk}}
+						default:
+							body = []model.Stmt{model.If{Conds: []model.Expr{model.Lit{V: model.Bool(false)}}, Bodies: [][]model.Stmt{{model.Text{S: "no"}}}, Else: blk}}
+						}
+					}
+					prog := append([]model.Stmt{model.Assign{Name: "top", E: lit(-1)}}, body...)
+					prog = append(prog, model.Text{S: "|end:"}, model.Print{E: model.Var{Name: "top"}}, model.Print{E: model.Var{Name: "d"}})
+					judgeScope(c, prog, map[string]model.Value{"d": model.Str("data")}, "deep-blocks")
+				}})
 			// an insert body stands in the place of its reserve: the layout sees what it assigns, per pass of a layout loop
 			layoutCases := layoutScopeCases()
 			secs = append(secs, core.Section{Name: "insert-scope", Exhaustive: true, N: len(layoutCases),
